@@ -3,4 +3,5 @@ import DoviModel.Proofs.HevcGeneral
 import DoviModel.Proofs.HevcExtract
 import DoviModel.Proofs.HevcInject
 import DoviModel.Proofs.HevcRoundTrip
+import DoviModel.Proofs.HevcStage
 /-! helper lemmas about the stream-command model (Model/Hevc.lean), by topic -/
